@@ -21,6 +21,8 @@ Ltac zb2p := repeat match goal with
   | H : (_ =? _) = false |- _ => apply Z.eqb_neq in H
   | H : (_ && _) = true |- _ => apply andb_true_iff in H; destruct H
   | H : (_ || _) = false |- _ => apply orb_false_iff in H; destruct H
+  | H : (_ && _) = false |- _ => apply andb_false_iff in H; destruct H
+  | H : (_ || _) = true |- _ => apply orb_true_iff in H; destruct H
   | H : negb _ = true |- _ => apply negb_true_iff in H
   | H : negb _ = false |- _ => apply negb_false_iff in H
   end.
@@ -44,6 +46,21 @@ Proof. reflexivity. Qed.
 Lemma for_brk_cons {A S} (body : A -> S -> ctl Empty_set S) x l s :
   for_brk (x :: l) body s = match body x s with Ret v => match v with end | Brk s' => s' | Nxt s' => for_brk l body s' end.
 Proof. unfold for_brk. cbn. destruct (body x s) as [[]| |]; reflexivity. Qed.
+
+(* a search loop: the body leaves the state alone until the first element satisfying p, where it
+   breaks with the state (g i s), i the position counted from `start` -- in terms of find_index *)
+Lemma for_brk_find {A S} (p : A -> bool) (g : Z -> S -> S) (body : Z * A -> S -> ctl Empty_set S) :
+  (forall i x s, body (i, x) s = if p x then Brk (g i s) else Nxt s) ->
+  forall l start s,
+    for_brk (enum_from start l) body s =
+    match find_index p l with Some j => g (start + Z.of_nat j) s | None => s end.
+Proof.
+  intro Hb. induction l as [|x l IH]; intros start s; [reflexivity|].
+  cbn [enum_from find_index]. rewrite for_brk_cons, Hb. destruct (p x).
+  - now rewrite Z.add_0_r.
+  - rewrite IH. destruct (find_index p l) as [j|]; cbn [option_map]; [|reflexivity].
+    f_equal. lia.
+Qed.
 
 (* two loops running in lock-step keep a relation between their states *)
 Lemma fold_left_sim {A S T} (R : S -> T -> Prop) (f : S -> A -> S) (g : T -> A -> T) l :
@@ -146,11 +163,15 @@ Proof.
   rewrite firstn_all, skipn_all, firstn_all2, skipn_all2 by lia. reflexivity.
 Qed.
 
-Lemma py_del_at {A} (l : list A) i : 0 <= i < zlen l -> py_del l i = remove_at (Z.to_nat i) l.
+Lemma py_del_at {A} (l : list A) i : 0 <= i -> py_del l i = remove_at (Z.to_nat i) l.
 Proof.
   intro H. unfold py_del. destruct (i <? 0) eqn:E; [zb2p; lia|].
-  destruct (i <? 0) eqn:E1; [discriminate|]. destruct (zlen l <=? i) eqn:E2; [zb2p; lia|]. reflexivity.
+  destruct (i <? 0) eqn:E1; [discriminate|]. cbn [orb]. destruct (zlen l <=? i) eqn:E2; [|reflexivity].
+  zb2p. unfold remove_at, zlen in *. rewrite firstn_all2, skipn_all2 by lia. now rewrite app_nil_r.
 Qed.
+
+Lemma insert_at_nonnil {A} i (x : A) l : insert_at i x l <> [].
+Proof. unfold insert_at. destruct (firstn i l); discriminate. Qed.
 
 (* ---- sorted(key=) is the model's sort of the keys ---- *)
 Lemma ins_key_map (key : wvals -> Z) x l : map key (ins_key key x l) = ins_asc (key x) (map key l).
